@@ -937,6 +937,7 @@ namespace {
     }
 }
 
+#ifndef C39_BOOT_NO_MAIN  // engines/comp/c39_fuzz.cpp includes this file and brings its own main()
 int main( int argc, char** argv )
 {
     verif::Harness< Case > h;
@@ -946,3 +947,4 @@ int main( int argc, char** argv )
     h.run       = run;
     return verif::run_main( argc, argv, h );
 }
+#endif
